@@ -536,7 +536,11 @@ impl SizeModel {
 fn run_with_log(dir: &std::path::Path, src: &str, tag: &str, subdir: bool, via_execute: bool, heap_size: Option<&str>) -> Option<(cli::CliRun, Option<String>)> {
     let f = dir.join(format!("{}.fml", tag));
     std::fs::write(&f, src).ok()?;
-    let log = if subdir { dir.join(format!("{}-newdir", tag)).join("deeper").join("heap.csv") } else { dir.join(format!("{}.csv", tag)) };
+    // absolute paths, and (for some tags) paths relative to the working directory, with and
+    // without a directory component
+    let relative = tag.ends_with('1') || tag.ends_with('5') || tag.ends_with('9');
+    let log_rel = if subdir { std::path::PathBuf::from(format!("{}-newdir", tag)).join("deeper").join("heap.csv") } else { std::path::PathBuf::from(format!("{}.csv", tag)) };
+    let log = dir.join(&log_rel);
     let _ = std::fs::remove_file(&log);
     let mut args: Vec<String> = Vec::new();
     if via_execute {
@@ -551,13 +555,13 @@ fn run_with_log(dir: &std::path::Path, src: &str, tag: &str, subdir: bool, via_e
         args.push(f.to_str()?.into());
     }
     args.push("--heap-log".into());
-    args.push(log.to_str()?.into());
+    args.push(if relative { log_rel.to_str()?.into() } else { log.to_str()?.into() });
     if let Some(h) = heap_size {
         args.push("--heap-size".into());
         args.push(h.into());
     }
     let argv: Vec<&str> = args.iter().map(|s| s.as_str()).collect();
-    let r = cli::run(cli::Spec::new(&argv));
+    let r = cli::run(cli::Spec::new(&argv).cwd(dir));
     let text = std::fs::read_to_string(&log).ok();
     let _ = std::fs::remove_file(&log);
     if subdir {
